@@ -27,6 +27,17 @@ class HarnessError(Exception):
     pass
 
 
+class OutOfReach(Exception):
+    """a public callee the harness attaches a stub / counter to no longer exists (refactored code): the job's obligations
+    are inconclusive, never a verdict and not a harness error"""
+
+
+def require(obj, name):
+    if not hasattr(obj, name):
+        raise OutOfReach("%s.%s does not exist in the current source: the harness cannot attach to it" % (getattr(obj, "__name__", obj), name))
+    return getattr(obj, name)
+
+
 # ------------------------------------------------------------------------------------------------
 # patching the imported repo modules for the duration of an exploration
 
